@@ -143,12 +143,17 @@ def gen_fields(rng, used, named, n, allow_pos=True):
 def gen_type(rng, ix):
     used = Used()
     kind = rng.choice(["struct", "struct", "tuple", "enum", "enum"])
+    # every tenth type carries the combination that is rare otherwise: a nested plain parser with BOTH a doc comment and an
+    # explicit group_help (the annotation overrides exactly what it names)
+    forced = ix % 10 == 3
+    if forced:
+        kind = "struct"
     t = {"name": "T%d" % ix, "kind": kind, "doc": rng.choice(DOCS + [None])}
     if kind == "struct":
         t["fields"] = gen_fields(rng, used, True, rng.choice([1, 2, 3, 4]))
         if not t["fields"]:
             return None
-        if rng.random() < 0.4:
+        if forced or rng.random() < 0.4:
             # a nested plain parser (derive without `options`): doc comment -> group_help unless given explicitly
             keep = used.fields
             inner_fields = gen_fields(rng, used, True, rng.choice([1, 2]), allow_pos=False)
@@ -156,6 +161,9 @@ def gen_type(rng, ix):
             if inner_fields:
                 t["inner"] = {"name": "In%d" % ix, "fields": inner_fields, "doc": rng.choice([None, "inner doc", "Group of things"]),
                               "group_help": rng.choice([None, None, "explicit group title"])}
+                if forced:
+                    t["inner"]["doc"] = rng.choice(["inner doc", "Group of things"])
+                    t["inner"]["group_help"] = "explicit group title"
     elif kind == "tuple":
         n = rng.choice([1, 2, 3])
         fs = []
